@@ -263,6 +263,9 @@ pub fn states() -> Vec<State> {
         State { max: 3, idle: 1, main_held: 1, waiter: false },
         State { max: 1, idle: 0, main_held: 1, waiter: true },
         State { max: 2, idle: 0, main_held: 2, waiter: true },
+        // (for operations of A that need an object of their own: A holds the last slot, C waits for it)
+        State { max: 1, idle: 0, main_held: 0, waiter: true },
+        State { max: 2, idle: 0, main_held: 1, waiter: true },
     ]
 }
 
